@@ -106,7 +106,14 @@ func sessionMsgWrappers(c *an.Check) {
 	nsm := p.Func(sigPkg, "", "NewSessionMsg")
 	ok, why := eav != nil && val != nil && nsm != nil, "unresolved anchor"
 	if ok {
+		cOwnEAV := an.R(sigPkg, "SessionMsg", "ExtractAndVerify")
 		for _, f := range []*ssa.Function{eav, val} {
+			// Validate may also delegate to the message's own ExtractAndVerify (which is held to the rule itself)
+			if f == val {
+				if own := an.Calls(f, cOwnEAV); len(own) == 1 && an.IsParam(own[0].Call.Args[0], 0) && len(an.Calls(f, cSignedEAV)) == 0 {
+					continue
+				}
+			}
 			cs := an.Calls(f, cSignedEAV)
 			if len(cs) != 1 || !isNamedConst(cs[0].Call.Args[1], "encContext") || an.ResultCallTo(cs[0].Call.Args[0], an.R(sigPkg, "SessionMsg", "GetSignedMsg")) == nil {
 				ok, why = false, an.FuncName(f)+" does not verify its own signed message under the package context constant"
@@ -128,7 +135,7 @@ func sessionMsgWrappers(c *an.Check) {
 	}
 	if val != nil {
 		c.EachReturn("PROVENANCE", "signaling SessionMsg.Validate forwards the verifier's verdict", val, "returns SignedMsg.ExtractAndVerify's error", func(s *an.State, ret *ssa.Return) string {
-			if an.ResultCallTo(s.RetVal(ret, -1), cSignedEAV) == nil {
+			if an.ResultCallTo(s.RetVal(ret, -1), cSignedEAV) == nil && an.ResultCallTo(s.RetVal(ret, -1), an.R(sigPkg, "SessionMsg", "ExtractAndVerify")) == nil {
 				return "the returned error is not the verifier's error"
 			}
 			return ""
